@@ -390,6 +390,12 @@ def b_implies(V, st, args, kwargs, node):
     return SV(BOOL, z3.Implies(truthy(args[0]), truthy(args[1])))
 
 
+@_b('the')
+def b_the(V, st, args, kwargs, node):
+    """spec connective: the payload of an Optional that the surrounding formula has established to be present"""
+    return strip_opt(args[0])
+
+
 @_b('iff')
 def b_iff(V, st, args, kwargs, node):
     return SV(BOOL, truthy(args[0]) == truthy(args[1]))
